@@ -874,6 +874,8 @@ fn fill(w: usize, gates: &[Sh<Gate>], item: &Payload, cols: &mut [Utf32String], 
     for _ in 0..burn {
         nucleo_verif_rt::point("fill.burn");
     }
+    // user code writes into library-owned memory: report it to the happens-before monitor
+    nucleo_verif_rt::hb::plain_write(cols.as_ptr() as usize, "fill callback (writes the matcher columns)");
     // real fill callbacks write the columns one by one; a panic may strike in between
     let ncols = cols.len();
     for (c, col) in cols.iter_mut().enumerate() {
@@ -884,6 +886,7 @@ fn fill(w: usize, gates: &[Sh<Gate>], item: &Payload, cols: &mut [Utf32String], 
         let t: &str = &item.texts[c];
         *col = alloc::tracked(|| Utf32String::from(t));
     }
+    nucleo_verif_rt::hb::plain_write(cols.as_ptr() as usize, "fill callback (wrote the matcher columns)");
     ledger::mark_stored(item.uid);
     nucleo_verif_rt::point("fill.end");
 }
